@@ -66,6 +66,8 @@ func main() {
 	switch fam {
 	case "acl":
 		err = traceACL(o)
+	case "auditfmt":
+		err = traceAuditFmt(o)
 	case "db":
 		err = traceDB(o)
 	case "cli":
